@@ -445,9 +445,13 @@ void SGal3TangentBase<_Derived>::fillE(
   E.noalias() = I(Scalar(0.5), Scalar(0.5), Scalar(0.5)).toDenseMatrix();
 
   // small angle approx.
-  if (theta_sq < Constants<Scalar>::eps) {
-    // first order: A -> 1/6, the B*W*W term is O(theta^2)
-    E.noalias() += Scalar(1. / 6.) * so3.hat();
+  // A and B below subtract O(1) terms to obtain O(theta^3) and O(theta^4)
+  // results: up to theta^4 < eps their second-order series are more accurate
+  // than the closed forms, and so are their derivatives (autodiff scalars).
+  if (theta_sq * theta_sq < Constants<Scalar>::eps) {
+    const typename SO3Tangent<Scalar>::LieAlg W = so3.hat();
+    E.noalias() += (Scalar(1. / 6.)  - Scalar(1. / 120.) * theta_sq) * W
+                 + (Scalar(1. / 24.) - Scalar(1. / 720.) * theta_sq) * W * W;
     return;
   }
 
